@@ -109,6 +109,8 @@ def run(tier):
         sql = sqlgen.render(st)
         exp = sqlgen.expected(st)
         for d in ds:
+            if not common.is_core_for(d, exp["tags"]):
+                continue  # the dialect's grammar does not know this join form (it would parse the keyword as an alias)
             if st.kind == "select_into" and d not in SELECT_INTO_DIALECTS:
                 continue  # elsewhere SELECT ... INTO assigns variables / writes files: not the core statement
             cases.append({"sql": sql, "dialect": d, "want": []})
